@@ -112,7 +112,8 @@ fn verdict(orig: &Rule, text: &str) -> &'static str {
 }
 fn exec_rt(src: &str, wire: &str) -> String {
     let r1 = match inputlayer::parse_rule(src) { Ok(r) => r, Err(_) => return "unparsed".into() };
-    match wire_rule(&r1) { Some(w) if w == wire => {}, Some(_) => return "wire-mismatch".into(), None => return "unsupported".into() }
+    // `?` = exploration mode (not used by the generators): no AST check, any construct
+    if wire != "?" { match wire_rule(&r1) { Some(w) if w == wire => {}, Some(_) => return "wire-mismatch".into(), None => return "unsupported".into() } }
     // session / request-local path: handler.rs `format_rule_text` = `rule.to_string()`
     let s1 = r1.to_string();
     let s = verdict(&r1, &s1);
